@@ -237,6 +237,59 @@ def has_get(t):
     return term_has(t, lambda x: isinstance(x, tuple) and x and x[0] == 'call' and strip_generics(x[1]).endswith('::get'))
 
 
+def r113(facts, res):
+    """sibling agreement inside `unescape`: the scan cursor (backslash pos, rest of the text from the escaped char, its pos,
+    the char) is produced at two sites; both must build the `rest` component as text[pos..] (unbounded), because the
+    escape classifier needs the characters AFTER the escaped one (\\xHH, \\uHHHH)"""
+    R = 'R11.3'
+    bodies = [b for b in facts.lib_bodies(['lrlex']) if b.path.startswith('lrlex::parser::') and '::unescape' in b.path]
+    sites = []
+    for b in bodies:
+        for bb, i, st in b.stmts():
+            if st['k'] != 'assign' or st['rv'].get('agg') != 'tuple' or len(st['rv']['ops']) != 4:
+                continue
+            tys = [b.lty(op_local(o)) if op_local(o) is not None else None for o in st['rv']['ops']]
+            if tys != ['usize', '&str', 'usize', 'char']:
+                continue
+            sites.append((b, bb, st))
+    res.floor(R, 'producers of the unescape cursor', len(sites), 2)
+    shapes = []
+    for b, bb, st in sites:
+        ops = st['rv']['ops']
+        # rest = &text[range]
+        l = op_local(ops[1])
+        shape = 'unknown'
+        posroot = b.op_root(ops[2], through=(), stop_named=False)[0]
+        seen = set()
+        while l is not None and l not in seen:
+            seen.add(l)
+            ds = b.defs().get(l, [])
+            if len(ds) != 1:
+                break
+            if ds[0][1] == 'call' and cname(ds[0][2]) == 'index':
+                rl = op_local(ds[0][2]['args'][1])
+                for d in b.defs().get(rl, []):
+                    if d[1] == 'stmt' and 'agg' in d[2] and isinstance(d[2]['agg'], dict):
+                        vn_ = d[2]['agg'].get('vname')
+                        lo = b.op_root(d[2]['ops'][0], through=(), stop_named=False)[0] if d[2]['ops'] else None
+                        shape = '%s(from %s)' % (vn_, 'the char position' if lo == posroot else 'another position')
+                break
+            x = ds[0][2]
+            if ds[0][1] == 'stmt':
+                pl = op_place(x['use']) if 'use' in x else x.get('ref')
+                l = pl['l'] if pl else None
+            else:
+                break
+        shapes.append((shape, b, bb))
+    for i, (shape, b, bb) in enumerate(shapes):
+        key = 'cursor-producer#%d' % i
+        if shape == 'RangeFrom(from the char position)':
+            res.ok(R, key, loc_of(b, bb), 'rest-of-text component is text[pos..]')
+        else:
+            res.bad(R, key, loc_of(b, bb), 'this producer builds the rest-of-text component as %s while the scan needs text[pos..]: multi-character escapes (\\xHH, \\uHHHH) after it are no longer recognised' % shape)
+
+
 def run(facts, res):
+    r113(facts, res)
     r111(facts, res)
     r112(facts, res)
